@@ -20,7 +20,7 @@ DEFAULT_ASSUMPTIONS = [
 ASSUMPTIONS = {}
 
 
-def vrt(tu, scenarios, bound=2, unbounded=False, race_oracle=False, workers=16, ignore=None, max_viol=None, spurious=False, cache_bits=None):
+def vrt(tu, scenarios, bound=2, unbounded=False, race_oracle='user', workers=16, ignore=None, max_viol=None, spurious=False, cache_bits=None):
     return dict(kind='vrt', tu=tu, scenarios=scenarios, bound=bound, unbounded=unbounded, race_oracle=race_oracle, workers=workers,
                 ignore=ignore or [], max_viol=max_viol, spurious=spurious, cache_bits=cache_bits)
 
@@ -170,4 +170,10 @@ def jobs(pid, tier):
         return [seq('C16'), vrt('C16', [r'pub1_.*', r'pubmt1_.*'], bound=3, workers=2), vrt('C16', [r'pub2_(?!.*poll-poll).*', r'pubmt2_.*'], bound=2, workers=8)]
     if pid == 'C06':
         return [seq('C06')]
+    if pid == 'RACEALL':
+        # maintenance sweep, not a registered check: every scenario of every threaded harness with the user-side race oracle
+        # (finds harness code that is itself racy before a property's check would report it as the library's fault)
+        b = 1 if q else 2
+        return [vrt(tu, [r'.*'], bound=b, workers=2, max_viol=50) for tu in
+                ('C01', 'C02', 'C04', 'C07', 'C09', 'C11', 'C12', 'C13', 'C15', 'C16', 'C17', 'C18', 'C19', 'C20')]
     return []
